@@ -197,7 +197,7 @@ def driver(j):
             "c17f_%s(F, L) :- open(F, read, S), catch(c17r_%s(S, 40, L), B, L = [ball(B)]), close(S).\n") % ((j,) * 5)
 
 
-def run_impl(ctx, d, texts, tag):
+def run_impl(ctx, d, texts, tag, prelude=""):
     """-> list of ('seq', [items]) | ('fail', key, detail) per text; items: ('t', term) | ('e', atom) | 'eof' | 'cap' | ('o', term) | ('ball', term)"""
     paths = []
     for i, t in enumerate(texts):
@@ -209,7 +209,7 @@ def run_impl(ctx, d, texts, tag):
     jobs = []
     for j in range(0, len(texts), B):
         jid = "%s%d" % (tag, j // B)
-        jobs.append({"id": jid, "consult": driver(jid), "queries": ["c17f_%s('%s', L)." % (jid, paths[i]) for i in range(j, min(j + B, len(texts)))],
+        jobs.append({"id": jid, "consult": prelude + driver(jid), "queries": ["c17f_%s('%s', L)." % (jid, paths[i]) for i in range(j, min(j + B, len(texts)))],
                      "max_answers": 1, "timeout_ms": 5000})
     res = core.vrun_query(ctx.prop, jobs, tag=tag)
     out = [None] * len(texts)
@@ -228,7 +228,7 @@ def run_impl(ctx, d, texts, tag):
             else:
                 out[i] = o
     if redo:
-        jobs2 = [{"id": "%sr%d" % (tag, i), "consult": driver("r%d" % i), "queries": ["c17f_r%d('%s', L)." % (i, paths[i])],
+        jobs2 = [{"id": "%sr%d" % (tag, i), "consult": prelude + driver("r%d" % i), "queries": ["c17f_r%d('%s', L)." % (i, paths[i])],
                   "max_answers": 1, "timeout_ms": 5000, "fresh": True} for i in redo]
         res2 = core.vrun_query(ctx.prop, jobs2, tag=tag + "r")
         for i in redo:
@@ -433,8 +433,24 @@ def run(ctx):
     shutil.rmtree(d, ignore_errors=True)
     os.makedirs(d)
     t_impl = time.time()
+    # texts around '|' and other operator atoms in argument, list and bracket positions, read once with the default
+    # operator table and once after library(dcgs) declared '|' as an infix operator (only crashes and hangs are judged here:
+    # the reference reader models the default table)
+    bar_texts = ["f(|).\n", "g(a, |).\n", "h(k(|), b). c.\n", "[|].\n", "[a|].\n", "[|b].\n", "f((|)).\n", "f(a|b).\n", "(a | b).\n", "a | b.\n", "| .\n", "f(| , a).\n",
+                 "{|}.\n", "f(- |).\n", "f(| -).\n", "- | - .\n", "f(|)|g(|).\n", "x :- a | b, c.\n", "f([|]|[|]).\n", "'|'(a,b). c.\n", "f(:-). g(-->). h(*).\n",
+                 "f(:- |). c.\n", "[a,b|c|d].\n", "f(a, | , b).\n", "p --> a | b.\n", "p --> | .\n", "f(|||).\n", "||.\n", "f(\\+ |).\n"]
+    for _ in range(ctx.scale(150, 3000)):
+        t0 = rng.choice(cases)[0]
+        toks = re.split(r"(\W)", t0)
+        idxs = [k for k, x in enumerate(toks) if x.strip()]
+        if not idxs: continue
+        for k in rng.sample(idxs, min(len(idxs), rng.choice([1, 1, 2]))):
+            toks[k] = "|"
+        bar_texts.append("".join(toks))
     try:
         impl = run_impl(ctx, d, [c[0] for c in cases], "t")
+        bar1 = run_impl(ctx, d, bar_texts, "b")
+        bar2 = run_impl(ctx, d, bar_texts, "d", prelude=":- use_module(library(dcgs)).\n")
     finally:
         shutil.rmtree(d, ignore_errors=True)
 
@@ -449,7 +465,12 @@ def run(ctx):
 
     exprs, eidx = [], []
     vexprs, vidx = [], []
-    dist = {"kinds": {}, "impl_errors": 0, "reads": 0, "agree": 0, "valid_texts": 0}
+    dist = {"kinds": {}, "impl_errors": 0, "reads": 0, "agree": 0, "valid_texts": 0, "bar_operator_texts": 2 * len(bar_texts)}
+    for tag, outs in (("default-ops", bar1), ("bar-declared-infix", bar2)):
+        for t, o in zip(bar_texts, outs):
+            if o is None or (o[0] == "fail" and o[1] in ("reader:panic", "reader:hang")):
+                key, det = (o[1], o[2]) if o else ("reader:panic", "no result")
+                fail(key + ":" + tag, "the reader panicked, died or hung on a text with '|' in operand positions (%s)" % tag, t, det, "a term or syntax_error(_) for every read")
     for i, (t, kinds, exp) in enumerate(cases):
         for k in kinds:
             dist["kinds"][k] = dist["kinds"].get(k, 0) + 1
